@@ -75,12 +75,17 @@ def history_oracle(schema, cfg, history, probe):
             in_force = call[3]          # a per-call schema replaces the validator's schema, as documented
         elif call[3] is not None and out == ("declared", "DocumentError"):
             in_force = call[3]
+    # the reference is really fresh: nothing the used instance submitted is remembered on its behalf (the class-level cache of
+    # validated schemas is part of "what was processed before")
+    a = do_call(used, probe)
+    pool.PoolValidator.clear_caches()
+    cerberus.Validator.clear_caches()
     if probe[3] is not None:
         # the probe brings its own schema: the reference is a validator that never held one
         fresh = pool.PoolValidator(**copy.deepcopy(cfg))
     else:
         fresh = pool.PoolValidator(copy.deepcopy(in_force), **copy.deepcopy(cfg))
-    a, b = do_call(used, probe), do_call(fresh, probe)
+    b = do_call(fresh, probe)
     if a[0] == "raise" or b[0] == "raise":
         return None, "skip"
     if a != b:
@@ -187,6 +192,13 @@ def run(ctx):
             tw = twin(base, g.r) if g.r.random() < 0.6 else None
             probe = (probe[0], g.doc_for(base, p_present=0.7), probe[2], tw or base)
             dist["probe_with_schema" + ("_twin" if tw else "")] += 1
+            # ... or a rule set that one of these schemas holds in a bulk position (valuesrules, items, ...), offered as a schema
+            import positions
+            bulk = [rs for pth, kd, rs in positions.rule_sets(base) if kd in ('valuesrules', 'keysrules', 'items', 'list-schema', 'allow_unknown-rule')
+                    and isinstance(rs, dict) and rs]
+            if bulk and g.r.random() < 0.35:
+                probe = (probe[0], {}, probe[2], copy.deepcopy(g.r.choice(bulk)))
+                dist["probe_with_bulk_rule_set_as_schema"] += 1
         d, skip = history_oracle(schema, cfg, history, probe)
         if skip:
             dist["skipped_raise"] += 1
